@@ -471,7 +471,15 @@ def rule_ctor_copies_containers_(ctx: Ctx, rep: Report) -> None:
     rule_ctor_copies_containers(ctx, rep, "C18.ctor_copies_containers", ('btclib.psbt', 'btclib.tx', 'btclib.script'), 15)
 
 
+def rule_nested_validated_(ctx: Ctx, rep: Report) -> None:
+    """C18.nested_validated: assert_valid validates every nested wire object (see sigcommon.rule_nested_validated)."""
+    from rules.sigcommon import rule_nested_validated
+    rule_nested_validated(ctx, rep, "C18.nested_validated", ('btclib.psbt', 'btclib.tx'), 6)
+
+
 RULES = [
+    ("C18.nested_validated", rule_nested_validated_),
+
     ("C18.ctor_copies_containers", rule_ctor_copies_containers_),
 
     ("C18.multisig_m", rule_multisig_m),
